@@ -31,6 +31,18 @@ Theorem C19_split_updates : forall (f : smap) (us vs : list (N * sview)) (id : N
 Proof. exact update_split. Qed.
 Print Assumptions C19_split_updates.
 
+(* every entry point of the cluster layer (Raft event listener, memberlist join/leave/update callbacks, push/pull
+   delegate) folds one list of updates into the view and does nothing else to it: whatever the events, the view is that
+   of all the updates seen, and two nodes that saw the same updates agree *)
+Theorem C19_cluster_events : forall (events : list (list (N * sview))) (f : smap) (id : N),
+  fold_left update events f id = update f (concat events) id.
+Proof. exact events_fold. Qed.
+Theorem C19_cluster_events_order_independent : forall (ev1 ev2 : list (list (N * sview))) (f : smap) (id : N),
+  Permutation (concat ev1) (concat ev2) -> consistent (f id :: for_shard id (concat ev1)) ->
+  fold_left update ev1 f id = fold_left update ev2 f id.
+Proof. exact events_order_independent. Qed.
+Print Assumptions C19_cluster_events_order_independent.
+
 (* gossip state exchange: merging a peer's already merged view equals having received the peer's updates *)
 Theorem C19_merge_remote_view : forall (c : sview) (us vs : list sview),
   consistent (zero :: c :: us ++ vs) ->
